@@ -511,7 +511,7 @@ def observe_file_with_url(schema, path, url):
     return None
 
 
-def observe_open_file(schema, path, relative):
+def observe_open_file(schema, path, relative, bytes_name=False):
     """loadConfigFile on an open file whose name is the absolute path, or
     (after changing into its directory) the bare file name."""
     import ZConfig
@@ -521,7 +521,8 @@ def observe_open_file(schema, path, relative):
             os.chdir(os.path.dirname(path))
             path = os.path.basename(path)
         try:
-            with open(path, encoding="utf-8", newline="\n") as f:
+            with open(os.fsencode(path) if bytes_name else path,
+                      encoding="utf-8", newline="\n") as f:
                 ZConfig.loadConfigFile(schema, f)
         except Exception as e:  # noqa
             return e
@@ -612,7 +613,7 @@ def judge(ctx, p, rng, dirpath):
                 except ovr.NoSuchSection:
                     spec = None
         for included in (False, True, "nourl", "given-url",
-                         rng.choice(["fobj", "fobj-rel"])) + (
+                         rng.choice(["fobj", "fobj-rel", "fobj-bytes"])) + (
                 ("override",) if spec else ()):
             marked = list(lines)
             for i in ok_idx:
@@ -624,7 +625,7 @@ def judge(ctx, p, rng, dirpath):
                 if layout is None:
                     res.count("not_cuttable")
                     continue
-            elif included in ("fobj", "fobj-rel"):
+            elif included in ("fobj", "fobj-rel", "fobj-bytes"):
                 # the culprit in an included resource (when the text can be
                 # cut), the outer one handed over as an open file
                 layout = _cut_around(rng, marked, ok_idx[0])
@@ -657,8 +658,9 @@ def judge(ctx, p, rng, dirpath):
             elif included == "override":
                 e = observe(p.schema, main, [spec])
                 res.count("judged_with_override")
-            elif included in ("fobj", "fobj-rel"):
-                e = observe_open_file(p.schema, main, included == "fobj-rel")
+            elif included in ("fobj", "fobj-rel", "fobj-bytes"):
+                e = observe_open_file(p.schema, main, included == "fobj-rel",
+                                      included == "fobj-bytes")
                 res.count("judged_from_open_file")
             else:
                 e = observe(p.schema, main)
@@ -810,9 +812,10 @@ def replay(ctx, case):
         os.makedirs(os.path.dirname(fp), exist_ok=True)
         with open(fp, "w") as f:
             f.write(text)
-    if case.get("mode") in ("fobj", "fobj-rel"):
+    if case.get("mode") in ("fobj", "fobj-rel", "fobj-bytes"):
         e = observe_open_file(schema, os.path.join(d, "b", "main.conf"),
-                              case["mode"] == "fobj-rel")
+                              case["mode"] == "fobj-rel",
+                              case["mode"] == "fobj-bytes")
     else:
         e = observe(schema, os.path.join(d, "b", "main.conf"))
     # expected positions were recorded with the original scratch directory;
